@@ -58,8 +58,11 @@ type caseIn struct {
 	E2EPending    int    `json:"e2e_pending,omitempty"`    // with outage dialfail/dialok: that many concurrent SendCall / SendReplyCall / SendCallAndWaitReplayCall callers are waiting for Connected inside send() when Close is called
 	StreamPending int    `json:"stream_pending,omitempty"` // with outage dialfail/dialok: per open upstream that many writers blocked in WriteDataPoints (no flush loop during the outage; context.Background() and 30 s contexts alternate) and one Flush caller, per open downstream one ReadDataPoints and one ReadMetadata consumer, all pending when Close is called
 	RaceWriters   int    `json:"race_writers,omitempty"`   // live connection: that many writers are in flight on upstream 0 while its flush loop is stalled (slow sent-storage Store) and Upstream.Close is called from another goroutine
-	CallFlood     int    `json:"call_flood,omitempty"`     // that many DownstreamCall and UpstreamCallAck messages arrive while Close waits behind a pending SendBaseTime (no answer, 300 ms context)
-	Buffered      []int  `json:"buffered,omitempty"`       // ordinals of streams with unflushed data / unacknowledged reads at Close
+	CloseRefused  []int  `json:"close_refused,omitempty"`  // ordinals of streams closed first whose close request the broker answers with a FAILURE result code: the stream must be final all the same
+	RefuseCode    int    `json:"refuse_code,omitempty"`
+	ClosePending  string `json:"close_pending,omitempty"` // "ack": every open upstream has an Upstream.Close waiting for a withheld ack (close timeout 6 s); "resp": every open stream has a Close waiting for its withheld close response - when Conn.Close is called from another goroutine
+	CallFlood     int    `json:"call_flood,omitempty"`    // that many DownstreamCall and UpstreamCallAck messages arrive while Close waits behind a pending SendBaseTime (no answer, 300 ms context)
+	Buffered      []int  `json:"buffered,omitempty"`      // ordinals of streams with unflushed data / unacknowledged reads at Close
 	PendingRead   bool   `json:"pending_read,omitempty"`
 	PendingCall   bool   `json:"pending_call,omitempty"`
 	Closes        int    `json:"closes"` // number of Close calls
@@ -70,28 +73,30 @@ type caseIn struct {
 }
 
 type resultOut struct {
-	Evs           []string `json:"evs"`
-	ConnMatrix    [][2]int `json:"conn_matrix"`
-	StreamMatrix  [][3]int `json:"stream_matrix"`
-	WireAfter     int      `json:"wire_after"`
-	WireAfterWhat []string `json:"wire_after_what,omitempty"`
-	ConnectsAfter int      `json:"connects_after"`
-	DiscAfter     int      `json:"disc_after"`
-	ReconnAfter   int      `json:"reconn_after"`
-	SClosed       [][2]int `json:"sclosed"`
-	CloseReqs     []int    `json:"close_reqs"`
-	CloseReqMax   int      `json:"close_req_max"`
-	OverlapRets   [][]int  `json:"overlap_rets,omitempty"`
-	PendingMeta   int      `json:"pending_meta_ret,omitempty"`
-	RaceRets      []int    `json:"race_rets,omitempty"` // writers racing Upstream.Close, then the Flush, then the Close itself
-	GuardMissed   bool     `json:"guard_window_missed,omitempty"`
-	Leaked        int      `json:"leaked"`
-	LeakedWhere   []string `json:"leaked_where,omitempty"`
-	Panic         bool     `json:"panic"`
-	PanicMsg      string   `json:"panic_msg,omitempty"`
-	CloseRets     []int    `json:"close_rets"`
-	CloseMs       int      `json:"close_ms"`
-	Harness       string   `json:"harness,omitempty"`
+	Evs              []string `json:"evs"`
+	ConnMatrix       [][2]int `json:"conn_matrix"`
+	StreamMatrix     [][3]int `json:"stream_matrix"`
+	WireAfter        int      `json:"wire_after"`
+	WireAfterWhat    []string `json:"wire_after_what,omitempty"`
+	ConnectsAfter    int      `json:"connects_after"`
+	DiscAfter        int      `json:"disc_after"`
+	ReconnAfter      int      `json:"reconn_after"`
+	SClosed          [][2]int `json:"sclosed"`
+	CloseReqs        []int    `json:"close_reqs"`
+	CloseReqMax      int      `json:"close_req_max"`
+	OverlapRets      [][]int  `json:"overlap_rets,omitempty"`
+	PendingMeta      int      `json:"pending_meta_ret,omitempty"`
+	RaceRets         []int    `json:"race_rets,omitempty"` // writers racing Upstream.Close, then the Flush, then the Close itself
+	RefusedRets      []int    `json:"refused_close_rets,omitempty"`
+	PendingCloseRets []int    `json:"pending_close_rets,omitempty"`
+	GuardMissed      bool     `json:"guard_window_missed,omitempty"`
+	Leaked           int      `json:"leaked"`
+	LeakedWhere      []string `json:"leaked_where,omitempty"`
+	Panic            bool     `json:"panic"`
+	PanicMsg         string   `json:"panic_msg,omitempty"`
+	CloseRets        []int    `json:"close_rets"`
+	CloseMs          int      `json:"close_ms"`
+	Harness          string   `json:"harness,omitempty"`
 }
 
 func classify(err error) int {
@@ -253,7 +258,11 @@ func runCase(c *caseIn) (res resultOut) {
 				if (c.StreamPending > 0 || c.RaceWriters > 0) && i%2 == 1 {
 					qos = message.QoSReliable
 				}
-				s.up, err = conn.OpenUpstream(ctx, fmt.Sprintf("s%d", l), iscp.WithUpstreamFlushPolicyNone(), iscp.WithUpstreamCloseTimeout(300*time.Millisecond), iscp.WithUpstreamQoS(qos),
+				closeTimeout := 300 * time.Millisecond
+				if c.ClosePending == "ack" {
+					closeTimeout = 6 * time.Second
+				}
+				s.up, err = conn.OpenUpstream(ctx, fmt.Sprintf("s%d", l), iscp.WithUpstreamFlushPolicyNone(), iscp.WithUpstreamCloseTimeout(closeTimeout), iscp.WithUpstreamQoS(qos),
 					iscp.WithUpstreamClosedEventHandler(iscp.UpstreamClosedEventHandlerFunc(func(e *iscp.UpstreamClosedEvent) { ce(e.Err) })))
 			} else {
 				s.dn, err = conn.OpenDownstream(ctx, []*message.DownstreamFilter{message.NewDownstreamFilterAllFor(fmt.Sprintf("n%d", l))},
@@ -284,7 +293,9 @@ func runCase(c *caseIn) (res resultOut) {
 		return false
 	}
 	raceStream := func(i int) bool { return c.RaceWriters > 0 && c.Outage == "" && i == 0 && c.Ups > 0 }
-	closedFirst = func(i int) bool { return isIn(c.CloseFirst, i) || isIn(c.Overlap, i) || raceStream(i) }
+	closedFirst = func(i int) bool {
+		return isIn(c.CloseFirst, i) || isIn(c.Overlap, i) || raceStream(i) || isIn(c.CloseRefused, i)
+	}
 	// buffered data: an unflushed write / a consumed chunk whose result is not yet acknowledged
 	seq := uint32(0)
 	for i, s := range streams {
@@ -348,6 +359,57 @@ func runCase(c *caseIn) (res resultOut) {
 			return s.up.Close(ctx)
 		})
 		ev(fmt.Sprintf("EStreamClose %d", s.label), fmt.Sprintf("EStreamCloseResp %d", s.label))
+	}
+	// the broker answers the close request with a failure result code: the stream is final all the same
+	refuseCodes := []message.ResultCode{message.ResultCodeUnspecifiedError, message.ResultCodeStreamNotFound, message.ResultCodeProcessFailed, message.ResultCodeSessionCannotClosed}
+	for i, s := range streams {
+		if !isIn(c.CloseRefused, i) || isIn(c.CloseFirst, i) || isIn(c.Overlap, i) || raceStream(i) {
+			continue
+		}
+		s := s
+		cb.RefuseClose(s.label, refuseCodes[(c.RefuseCode+i)%len(refuseCodes)])
+		closeOnce := func() int {
+			return guarded(3*time.Second, func() error {
+				ctx, cancel := context.WithTimeout(context.Background(), 2*time.Second)
+				defer cancel()
+				if s.down {
+					return s.dn.Close(ctx)
+				}
+				return s.up.Close(ctx)
+			})
+		}
+		res.RefusedRets = append(res.RefusedRets, closeOnce())
+		ev(fmt.Sprintf("EStreamClose %d", s.label), fmt.Sprintf("EStreamCloseRefused %d", s.label))
+		// every later call fails with the stream-closed sentinel at once; a second Close sends nothing
+		apis := []int{9, 10}
+		if s.down {
+			apis = []int{12, 13}
+		}
+		for _, a := range apis {
+			a := a
+			cl := guarded(2*time.Second, func() error {
+				ctx, cancel := context.WithTimeout(context.Background(), 150*time.Millisecond)
+				defer cancel()
+				var err error
+				switch a {
+				case 9:
+					err = s.up.WriteDataPoints(ctx, &message.DataID{Name: "d", Type: "t"}, &message.DataPoint{ElapsedTime: 9, Payload: []byte{9}})
+				case 10:
+					err = s.up.Flush(ctx)
+				case 12:
+					_, err = s.dn.ReadDataPoints(ctx)
+				case 13:
+					_, err = s.dn.ReadMetadata(ctx)
+				}
+				return err
+			})
+			res.StreamMatrix = append(res.StreamMatrix, [3]int{s.label, a, cl})
+		}
+		again := 11
+		if s.down {
+			again = 14
+		}
+		res.StreamMatrix = append(res.StreamMatrix, [3]int{s.label, again, closeOnce()})
 	}
 	// writers in flight on a live upstream whose flush loop is stalled, and Upstream.Close from another goroutine
 	if len(streams) > 0 && raceStream(0) && !isIn(c.CloseFirst, 0) && !isIn(c.Overlap, 0) {
@@ -727,6 +789,65 @@ func runCase(c *caseIn) (res resultOut) {
 		}
 	}
 
+	// ---- stream Close calls pending (ack wait / close-response wait) when Conn.Close is called
+	var pendingClose []chan int
+	pendingCloseStream := map[int]bool{}
+	var lateCloseResp []string
+	if c.ClosePending != "" && c.Outage == "" {
+		if c.ClosePending == "ack" {
+			cb.NoAnswer("chunk", true)
+		}
+		for i, s := range streams {
+			if closedFirst(i) || (c.ClosePending == "ack" && s.down) {
+				continue
+			}
+			s := s
+			if c.ClosePending == "ack" {
+				guarded(time.Second, func() error {
+					return s.up.WriteDataPoints(context.Background(), &message.DataID{Name: "d", Type: "t"}, &message.DataPoint{ElapsedTime: 77, Payload: []byte{7}})
+				})
+			} else {
+				cb.HoldClose(s.label)
+			}
+			ch := make(chan int, 1)
+			from := len(cb.Log())
+			go func() {
+				defer func() {
+					if x := recover(); x != nil {
+						ch <- 8
+					}
+				}()
+				if s.down {
+					ch <- classify(s.dn.Close(context.Background()))
+				} else {
+					ch <- classify(s.up.Close(context.Background()))
+				}
+			}()
+			want := "chunk"
+			if c.ClosePending == "resp" {
+				want = "closeup"
+				if s.down {
+					want = "closedown"
+				}
+			}
+			broker.WaitFor(2*time.Second, func() bool {
+				for _, x := range cb.Log()[from:] {
+					if x.Kind == want && x.Label == s.label {
+						return true
+					}
+				}
+				return false
+			})
+			pendingClose = append(pendingClose, ch)
+			pendingCloseStream[s.label] = true
+			if c.ClosePending == "resp" {
+				ev(fmt.Sprintf("EStreamClose %d", s.label))
+				lateCloseResp = append(lateCloseResp, fmt.Sprintf("EStreamCloseResp %d", s.label))
+			}
+		}
+		time.Sleep(25 * time.Millisecond) // every Close sits in its wait
+	}
+
 	// ---- calls from other nodes keep arriving while Close waits behind a request in flight
 	if c.CallFlood > 0 && c.Outage == "" {
 		cb.NoAnswer("meta", true)
@@ -822,6 +943,17 @@ func runCase(c *caseIn) (res resultOut) {
 		}
 	}
 	time.Sleep(20 * time.Millisecond) // stream contexts are cancelled by watcher goroutines
+	if len(pendingClose) > 0 {
+		dl := time.Now().Add(1500 * time.Millisecond) // pending stream Close calls return promptly after Conn.Close
+		for _, ch := range pendingClose {
+			select {
+			case v := <-ch:
+				res.PendingCloseRets = append(res.PendingCloseRets, v)
+			case <-time.After(time.Until(dl)):
+				res.PendingCloseRets = append(res.PendingCloseRets, 7)
+			}
+		}
+	}
 
 	// ---- pending operations return
 	pendDeadline := time.After(3 * time.Second) // one watchdog for all of them
@@ -927,6 +1059,9 @@ func runCase(c *caseIn) (res resultOut) {
 		}
 		for _, a := range apis {
 			a := a
+			if (a == 11 || a == 14) && c.ClosePending == "ack" && pendingCloseStream[s.label] {
+				continue // its Close is the pending one
+			}
 			cl := guarded(2*time.Second, func() error {
 				ctx, cancel := short()
 				defer cancel()
@@ -1071,6 +1206,8 @@ func runCase(c *caseIn) (res resultOut) {
 	for i, s := range streams {
 		e := fmt.Sprintf("EWatch %d", s.label)
 		switch {
+		case pendingCloseStream[s.label] && c.ClosePending == "resp":
+			wLate = append(wLate, e) // its flush happened inside the pending user Close
 		case isIn(c.Buffered, i) && !closedFirst(i) && flushed[s.label] == "after":
 			wAfter = append(wAfter, e)
 		case isIn(c.Buffered, i) && !closedFirst(i) && flushed[s.label] == "before" && c.Outage == "":
@@ -1083,6 +1220,26 @@ func runCase(c *caseIn) (res resultOut) {
 	ev("ECloseDisc")
 	ev(wAfter...)
 	ev("ECloseWire")
+	// the pending close exchanges end with the wire connection; whether the closed event they register is
+	// still delivered depends on whether the stream's dispatcher has already stopped (close watcher first)
+	for _, e := range lateCloseResp {
+		var lbl int
+		fmt.Sscanf(e, "EStreamCloseResp %d", &lbl)
+		delivered := broker.WaitFor(150*time.Millisecond, func() bool {
+			mu.Lock()
+			defer mu.Unlock()
+			for _, x := range sclosed {
+				if x[0] == lbl {
+					return true
+				}
+			}
+			return false
+		})
+		if !delivered {
+			ev(fmt.Sprintf("EWatch %d", lbl))
+		}
+		ev(e)
+	}
 	ev(wLate...)
 	for _, s := range streams {
 		ev(fmt.Sprintf("ESup %d", s.label))
@@ -1328,6 +1485,13 @@ func genRandom(r *rng.R) *caseIn {
 	} else if r.Chance(1, 6) {
 		c.CallFlood = 9 + r.Intn(12)
 	}
+	if n > 0 && r.Chance(1, 5) {
+		c.CloseRefused = []int{r.Intn(n)}
+		c.RefuseCode = r.Intn(4)
+	}
+	if c.Outage == "" && n > 0 && r.Chance(1, 6) {
+		c.ClosePending = []string{"ack", "resp"}[r.Intn(2)]
+	}
 	if c.Outage == "" && c.Ups > 0 && r.Chance(1, 6) {
 		c.RaceWriters = 1 + r.Intn(8)
 	}
@@ -1404,8 +1568,14 @@ func main() {
 				add(&caseIn{Ups: sh[0], Downs: sh[1], Closes: 1, Outage: "dialfail", StreamPending: 1 + 7*(sh[0]%2)}, "stream-calls-pending-during-outage")
 				add(&caseIn{Ups: sh[0], Downs: sh[1], Closes: 2, Concurrent: true, Outage: "dialok", StreamPending: 4}, "stream-calls-pending-during-outage")
 			}
+			if sh[0]+sh[1] > 0 {
+				add(&caseIn{Ups: sh[0], Downs: sh[1], Closes: 1 + sh[0]%2, ClosePending: "resp"}, "stream-close-pending-at-conn-close")
+				add(&caseIn{Ups: sh[0], Downs: sh[1], Closes: 1, CloseRefused: []int{0, 1, 2, 3}, RefuseCode: sh[0] + 2*sh[1]}, "stream-close-refused")
+				add(&caseIn{Ups: sh[0], Downs: sh[1], Closes: 2, CloseRefused: []int{sh[0]}, RefuseCode: 1, Buffered: []int{0}}, "stream-close-refused")
+			}
 			if sh[0] > 0 {
 				add(&caseIn{Ups: sh[0], Downs: sh[1], Closes: 1, RaceWriters: 1 + 3*sh[0]}, "writers-racing-stream-close")
+				add(&caseIn{Ups: sh[0], Downs: sh[1], Closes: 1, ClosePending: "ack"}, "stream-close-pending-at-conn-close")
 			}
 			add(&caseIn{Ups: sh[0], Downs: sh[1], Closes: 1 + sh[1]%2, Outage: "dialfail", E2EPending: 20 + 6*(sh[0]+sh[1])}, "e2e-pending-during-outage")
 			add(&caseIn{Ups: sh[0], Downs: sh[1], Closes: 1 + (sh[0]+sh[1])%2, Concurrent: sh[1] > 1, Outage: "dialok"}, "close-while-dialling")
@@ -1500,6 +1670,16 @@ func main() {
 		var crq []string
 		for _, x := range res.CloseReqs {
 			crq = append(crq, fmt.Sprint(x))
+		}
+		for _, x := range res.RefusedRets {
+			if x != 3 {
+				direct = fmt.Sprintf("a stream Close whose close request the broker refused returned class %d (expected the library's failed-message error)", x)
+			}
+		}
+		for _, x := range res.PendingCloseRets {
+			if x == 7 || x == 8 {
+				direct = fmt.Sprintf("a stream Close that was pending when Conn.Close was called did not return within 1.5 s after it (class %d)", x)
+			}
 		}
 		for k, x := range res.RaceRets {
 			n := len(res.RaceRets)
